@@ -57,13 +57,40 @@ theorem newZXCVBNPolicy_is_source (f) (hf : newZXCVBNPolicy = some f) (s : Bytes
     rw [hfs]
     dsimp only
     generalize stringsFields s = fs
+    -- a list of another length: the model refuses; whatever the source's length test looks like, its
+    -- true branch is the error return and its false branch contradicts the length (linear arithmetic)
+    have wrongLen : ∀ (l : List Bytes) (P : Prop) [Decidable P] (e : Bool × Int × Int) (x : Bool × Int × Int),
+        e.1 = true → (¬ P → False) → (if P then e else x).1 = true := by
+      intro l P _ e x he hP
+      by_cases hp : P
+      · simp [hp, he]
+      · exact absurd hp (fun h => hP h)
     match fs with
-    | [] => simp
-    | [_] => simp
-    | [_, _] => simp
+    | [] =>
+      refine ⟨?_, by intro c hc; simp at hc⟩
+      simp only [List.length_nil, decide_eq_true_eq]
+      first
+        | (apply wrongLen [] _ _ _ rfl; intro h; first | omega | (simp at h) | (simp at h; omega))
+        | simp
+    | [_] =>
+      refine ⟨?_, by intro c hc; simp at hc⟩
+      simp only [List.length_cons, List.length_nil, decide_eq_true_eq]
+      first
+        | (apply wrongLen [] _ _ _ rfl; intro h; first | omega | (simp at h) | (simp at h; omega))
+        | simp
+    | [_, _] =>
+      refine ⟨?_, by intro c hc; simp at hc⟩
+      simp only [List.length_cons, List.length_nil, decide_eq_true_eq]
+      first
+        | (apply wrongLen [] _ _ _ rfl; intro h; first | omega | (simp at h) | (simp at h; omega))
+        | simp
     | _ :: _ :: _ :: _ :: rest =>
-      have hne : ¬ ((rest.length : Int) + 1 + 1 + 1 + 1 = 3) := by omega
-      simp [hne]
+      refine ⟨?_, by intro c hc; simp at hc⟩
+      simp only [List.length_cons, List.length_nil, decide_eq_true_eq]
+      first
+        | (apply wrongLen [] _ _ _ rfl; intro h; first | omega | (simp at h; omega))
+        | (have hne : ¬ ((rest.length : Int) + 1 + 1 + 1 + 1 = 3) := by omega
+           simp [hne])
     | [k, op, t] =>
       simp only [List.length_cons, List.length_nil, List.getD_cons_zero, List.getD_cons_succ, parseUint,
         geB, scoreB, entropyB, timeB, decide_eq_true_eq]
